@@ -459,7 +459,46 @@ fn longnames_script(seed: u64, policy: &str) -> Script {
     Script { name: format!("longnames-{seed}"), policy: policy.to_string(), queues, anchors: anchors(), steps, expect: None }
 }
 
+/// A queue moved beyond 2^63 by a truncation into the future, then rejected / no-op / accepted
+/// appends at both ends of the position space (distances that do not fit a signed 64-bit integer).
+fn edge63_script(seed: u64, policy: &str) -> Script {
+    let mut rng = Rng(seed.wrapping_mul(0xED_6E63).wrapping_add(1));
+    let far = *anchors().last().unwrap();
+    let mut steps = vec![Step::Create { q: 0 }, Step::Create { q: 1 }];
+    let mut payload_seed = seed << 20;
+    let mut payload = |len: usize| {
+        payload_seed += 1;
+        Payload { seed: payload_seed, len, embed: None }
+    };
+    for _ in 0..rng.below(3) {
+        steps.push(Step::Append { q: 0, pos: None, batch: vec![payload(10)] });
+    }
+    let jump = far + rng.below(1000);
+    if rng.chance(50) {
+        steps.push(Step::Truncate { q: 0, p: jump });
+    } else {
+        steps.push(Step::Append { q: 0, pos: Some(jump), batch: vec![payload(7)] });
+    }
+    for _ in 0..3 + rng.below(4) {
+        let step = match rng.below(6) {
+            0 => Step::Append { q: 0, pos: Some(rng.below(5)), batch: vec![payload(9)] },          // 2^63 behind: Past
+            1 => Step::Append { q: 0, pos: Some((1 << 40) + rng.below(5)), batch: vec![payload(9), payload(0)] },
+            2 => Step::Append { q: 0, pos: None, batch: vec![payload(12)] },
+            3 => Step::Append { q: 1, pos: Some(rng.below(3)), batch: vec![payload(5)] },
+            4 => Step::Truncate { q: 0, p: rng.below(4) },                                           // far below the start: no-op
+            _ => Step::Restart,
+        };
+        steps.push(step);
+    }
+    steps.push(Step::Restart);
+    steps.push(Step::Append { q: 0, pos: None, batch: vec![payload(3)] });
+    Script { name: format!("edge63-{seed}"), policy: policy.to_string(), queues: vec!["e".to_string(), "f".to_string()], anchors: anchors(), steps, expect: None }
+}
+
 pub fn generate(profile_name: &str, seed: u64, policy: &str) -> Script {
+    if profile_name == "edge63" {
+        return edge63_script(seed, policy);
+    }
     if profile_name == "longnames" {
         return longnames_script(seed, policy);
     }
